@@ -41,6 +41,17 @@ theorem mint_obligation :
     genTable.skip ("Mint", "tx_pointer") = true ∧ genTable.restored ("Mint", "tx_pointer") = true ∧
     genTable.zeroed ("Mint", "tx_pointer") = false := by decide +kernel
 
+/-- Every hand-written (not derived) `CompressibleBy`/`DecompressibleBy` pair of fuel-tx / fuel-types /
+fuel-compression — `Policies`, `PoliciesBits`, `Bytes`, `Vec<T>`, `[T; S]`, the primitive and array types of
+`identity_compression!` — has bodies (pinned and classified by the translator) that compose to the identity; hence no
+field of any compressible type is unmodelled, and the `normal` mode (value kept) is what the code does. -/
+theorem hand_impls_roundtrip :
+    Gen.Fields.handImpls.all (fun h => pairRoundTrips h.2.1 h.2.2) = true ∧
+    Gen.Fields.compressFields.all (fun r => !genTable.unmodelled (r.1, r.2.1)) = true ∧
+    (["Policies", "PoliciesBits", "Bytes", "Vec<T>", "[T;S]", "u8", "u16", "u32", "u64", "Bytes32", "BlockHeight", "Nonce", "Salt", "BlobId"].all
+      (fun t => Gen.Fields.handImpls.any (fun h => h.1 == t))) = true := by
+  decide +kernel
+
 /-- the key is 3 bytes: default value 2^24-1 -/
 theorem key_constants : keyDefault = 2 ^ 24 - 1 ∧ keyMaxWritable = 2 ^ 24 - 2 := by decide +kernel
 
